@@ -536,7 +536,7 @@ func main() {
 	log.SetLogger(logr.Discard())
 	c := kit.Parse("C09", os.Args[1:])
 	rn := &runner{c: c, s: newSut()}
-	total := 2400
+	total := 1600
 	if c.Thorough() {
 		total = 16000
 	}
